@@ -138,6 +138,36 @@ def run_property(pid, tier="quick", replay=None, repo_root=None, write_evidence=
                     raise
                 except Exception as e:
                     results.append(unrecognised("R-SLICE0", q, "slice bounds of the form -e", "engine failed: %s" % str(e)[:100]))
+        # knobs (`verbose`, `n_jobs`) reach schedulers, progress bars and messages only: "for every input ... the result is X" includes
+        # every value of a parameter that is documented as not affecting the result
+        from .rules import knob_rule
+        for q in getattr(mod, "ANCHORS", []):
+            if repo.has_func(q):
+                fq = repo.func(q)
+                for knob in ("verbose", "n_jobs"):
+                    if knob in fq.params:
+                        try:
+                            for r in knob_rule(fq, knob):
+                                if r.key not in keys:
+                                    results.append(r)
+                                    keys.add(r.key)
+                        except AnalysisError:
+                            raise
+                        except Exception as e:
+                            results.append(unrecognised("KNOB", q, "results do not depend on `%s`" % knob, "rule failed: %s" % str(e)[:100]))
+        # optional numeric / array parameters are recognised as absent by identity with None, not by truth value
+        from .rules import none_test_rule
+        for q in getattr(mod, "ANCHORS", []):
+            if repo.has_func(q):
+                try:
+                    for r in none_test_rule(repo.func(q)):
+                        if r.key not in keys:
+                            results.append(r)
+                            keys.add(r.key)
+                except AnalysisError:
+                    raise
+                except Exception as e:
+                    results.append(unrecognised("NONE-TEST", q, "optional parameters are tested with `is None`", "rule failed: %s" % str(e)[:100]))
     except AnalysisError as e:
         say("ANALYSIS-ERROR property=%s %s" % (pid, e))
         return 2, out, []
@@ -210,7 +240,7 @@ def run_property(pid, tier="quick", replay=None, repo_root=None, write_evidence=
             equiv_note = "equivalence fallback crashed (%s: %s): verdicts unchanged" % (type(e).__name__, str(e)[:120])
     # spelling-based rules cannot tell a refactoring from a defect once a function has been rewritten: their VIOLATIONs are kept only
     # while every changed function is a first-order edit of its reference version (a deletion, or one replaced statement)
-    sem_rules = set(getattr(mod, "SEMANTIC_RULES", ())) | {"STATE", "R-SLICE0"}
+    sem_rules = set(getattr(mod, "SEMANTIC_RULES", ())) | {"STATE", "R-SLICE0", "KNOB", "NONE-TEST"}
     # every VIOLATION that is neither derived by an engine (semantic=True / SEMANTIC_RULES) nor an explicitly recognised deviation
     # (core.named) comes from comparing spellings and is subject to the rewrite gate
     gate_note = None
